@@ -4,6 +4,7 @@ import (
 	"bytes"
 	"errors"
 	"fmt"
+	"strings"
 	"math/big"
 	"time"
 
@@ -34,12 +35,12 @@ func c09Cells() (cells []c09Cell, skipped []string) {
 		{"end-block/newPayload", "newPayload", "finalize"},
 		{"end-block/forkchoiceUpdated", "fcu", "finalize"},
 	}
-	kinds := []string{"error", "drop", "INVALID", "SYNCING", "ACCEPTED", "nilid", "unknownid", "delay"}
+	kinds := []string{"error", "drop", "INVALID", "SYNCING", "ACCEPTED", "INVALID+id", "SYNCING+id", "ACCEPTED+id", "nilid", "unknownid", "delay"}
 	for _, s := range sites {
 		for _, k := range kinds {
 			ok := true
 			switch {
-			case (k == "nilid" || k == "unknownid") && s.method != "fcuAttr":
+			case (k == "nilid" || k == "unknownid" || strings.HasSuffix(k, "+id")) && s.method != "fcuAttr":
 				ok = false // only a payload-building call returns a payload id
 			case s.method == "getPayload" && (k == "INVALID" || k == "SYNCING" || k == "ACCEPTED"):
 				ok = false // getPayload has no status
@@ -500,7 +501,7 @@ func init() {
 	cells, skipped := c09Cells()
 	vc.Register(&vc.Check{
 		ID: "C09", Title: "Execution head advances only by valid child blocks; engine faults commit nothing", Level: "fault_enumeration",
-		Rule: fmt.Sprintf("complete enumeration of (engine call site x fault kind): sites prepare/forkchoiceUpdated, prepare/getPayload, process/newPayload, end-block/newPayload, end-block/forkchoiceUpdated; kinds RPC error, connection cut without an answer, INVALID, SYNCING, ACCEPTED, nil payload id, unknown payload id, 1.5 s delay (deadline 1.2 s): %d meaningful cells (%d skipped as not applicable: %v). "+
+		Rule: fmt.Sprintf("complete enumeration of (engine call site x fault kind): sites prepare/forkchoiceUpdated, prepare/getPayload, process/newPayload, end-block/newPayload, end-block/forkchoiceUpdated; kinds RPC error, connection cut without an answer, INVALID, SYNCING, ACCEPTED, the same three statuses with a payload id attached (payload-building call only), nil payload id, unknown payload id, 1.5 s delay (deadline 1.2 s): %d meaningful cells (%d skipped as not applicable: %v). "+
 			"One case = one cell injected at heights 2, 3, 5 (backlog), 8 and 11 (validator changes) of a 13-block history on a goleveldb node with a fault-free twin; thorough adds 2 more histories per cell and random multi-fault sequences. Oracles: a fault while proposing/checking makes PrepareProposal fail / the proposal be rejected and leaves export, app hash and height untouched; an error or INVALID at the end of the block makes FinalizeBlock fail, after which the node is restarted from disk and must show the pre-block export/app hash/height; completing the height fault-free gives the twin's app hash; after every commit the recorded head is unchanged or the finalised payload, a direct child proposed by the block's proposer without blob gas carrying the previous block hash as beacon root, and the engine calls are exactly newPayload(head), forkchoiceUpdated(head, parent, parent). Non-trivial = every injected fault; distinct = (site, kind, height class).",
 			len(cells), len(skipped), skipped),
 		Assume: []string{"SYNCING/ACCEPTED at the end of a block are allowed to commit (the statement only forbids errors and INVALID)", "crash = the node object is dropped and reopened from its goleveldb directory"},
